@@ -35,6 +35,7 @@ inline RCPBasic div(const RCPBasic &a, const RCPBasic &b)
   if (FVAL(b) == 0) { div_by_zero_flag = true; return mkr(0); }
   return mkr(T_DIV[FVAL(a)][FVAL(b)]);
 }
+inline RCPBasic field_conjugate(const RCPBasic &a) { return a; }
 inline RCPBasic neg(const RCPBasic &a) { __CPROVER_assert(a.nn, "arithmetic on non-null RCPs"); return mkr(T_SUB[0][FVAL(a)]); }
 enum class tribool { indeterminate = -1, trifalse = 0, tritrue = 1 };
 inline bool is_true(tribool x) { return x == tribool::tritrue; }
@@ -53,6 +54,11 @@ inline bool is_number_and_zero(const Basic &x) { return x.v == 0; }
 #else
 #error "CAP must be 9, 16 or 20 (unrolled copies: the front end cannot copy arrays of structs)"
 #endif
+/* insert/erase shift helpers (loops live in extern "C" functions so that --unwindset can name them) */
+struct RCPBasic;
+extern "C" void vb_shift_up(RCPBasic *d, unsigned n, unsigned k);
+extern "C" void vb_shift_down(RCPBasic *d, unsigned n, unsigned k);
+extern "C" void vb_fill(RCPBasic *d, unsigned from, unsigned to, fe_t v, bool nn);
 struct vec_basic {
   RCPBasic d[CAP]; unsigned n;
   vec_basic() { n = 0; }
@@ -62,8 +68,18 @@ struct vec_basic {
   unsigned size() const { return n; }
   RCPBasic &operator[](unsigned i) { __CPROVER_assert(i < n, "vector index in bounds"); return d[i < CAP ? i : 0]; }
   RCPBasic operator[](unsigned i) const { __CPROVER_assert(i < n, "vector index in bounds"); return d[i < CAP ? i : 0]; }
+  vec_basic(unsigned k, const RCPBasic &x) { __CPROVER_assert(k <= CAP, "stub capacity (vec_basic)"); n = k; vb_fill(d, 0, k, x.b.v, x.nn); }
+  /* iterators are positions: begin() + k is the unsigned k */
+  unsigned begin() const { return 0; }
+  void insert(unsigned pos, const RCPBasic &e) { __CPROVER_assert(pos <= n, "vector insert position in range"); __CPROVER_assert(n < CAP, "stub capacity (vec_basic)"); if (pos <= n && n < CAP) { vb_shift_up(d, n, pos); d[pos].b.v = e.b.v; d[pos].nn = e.nn; n = n + 1; } }
+  void erase(unsigned pos) { __CPROVER_assert(pos < n, "vector erase position in range"); if (pos < n) { vb_shift_down(d, n, pos); n = n - 1; } }
+  void resize(unsigned k) { __CPROVER_assert(k <= CAP, "stub capacity (vec_basic)"); if (k > n) vb_fill(d, n, k, 0, false); n = k; }
+  void clear() { n = 0; }
   void push_back(const RCPBasic &x) { __CPROVER_assert(n < CAP, "stub capacity (vec_basic)"); if (n < CAP) { d[n].b.v = x.b.v; d[n].nn = x.nn; n = n + 1; } }
 };
+extern "C" void vb_shift_up(RCPBasic *d, unsigned n, unsigned k) { for (unsigned i = CAP - 1; i > 0; i--) if (i > k && i <= n) { d[i].b.v = d[i - 1].b.v; d[i].nn = d[i - 1].nn; } }
+extern "C" void vb_shift_down(RCPBasic *d, unsigned n, unsigned k) { for (unsigned i = 0; i + 1 < CAP; i++) if (i >= k && i + 1 < n) { d[i].b.v = d[i + 1].b.v; d[i].nn = d[i + 1].nn; } }
+extern "C" void vb_fill(RCPBasic *d, unsigned from, unsigned to, fe_t v, bool nn) { for (unsigned i = 0; i < CAP; i++) if (i >= from && i < to) { d[i].b.v = v; d[i].nn = nn; } }
 namespace std { template <class T> void swap(T &a, T &b) { T t = a; a = b; b = t; } }
 extern RCPBasic zero, one, minus_one;
 #define FIELD_GLOBALS bool div_by_zero_flag; RCPBasic zero, one, minus_one; int verif_thrown; bool verif_may_throw;
